@@ -373,4 +373,53 @@ def normAttrs (ts : List Tok) : List Tok :=
 printed at the top level of a stream with default namespace `ns` -/
 def canon (ns : String) (ts : List Tok) : List Tok := normAttrs (resolve [ns] (mergeChars ts))
 
+/-! ### token writer handles (round 6)
+
+`Session.TokenWriter()` takes the output lock and returns a handle; `Close` flushes, releases
+the lock and marks the handle closed (`lwc.err = io.EOF`).  A handle can be used again after
+that (write after close, explicit `Close` plus deferred `Close`).  `guard = true` is the code:
+the closed handle remembers.  `guard = false`: the handle forgets that it was closed, every
+operation acts on the shared encoder and lock as if the handle still owned them. -/
+namespace Handles
+
+inductive HOp | enc (t : Tok) | flush | close
+  deriving DecidableEq, Repr
+
+inductive HRes | ok | eof
+  deriving DecidableEq, Repr
+
+structure Sess where
+  wire : List Tok
+  buf : List Tok
+  /-- who holds the output lock -/
+  holder : Option Nat
+  /-- handles that were closed -/
+  closed : List Nat
+  deriving DecidableEq, Repr
+
+def init : Sess := ⟨[], [], none, []⟩
+
+/-- `TokenWriter()` (returns once the lock is free) -/
+def acquire (s : Sess) (h : Nat) : Sess := { s with holder := some h }
+
+def step (guard : Bool) (s : Sess) (h : Nat) (op : HOp) : Sess × HRes :=
+  if guard && s.closed.contains h then
+    match op with
+    | .enc _ => (s, .eof)
+    | _ => (s, .ok)
+  else
+    match op with
+    | .enc t => ({ s with buf := s.buf ++ [t] }, .ok)
+    | .flush => ({ s with wire := s.wire ++ s.buf, buf := [] }, .ok)
+    | .close => ({ wire := s.wire ++ s.buf, buf := [], holder := none, closed := h :: s.closed }, .ok)
+
+def run (guard : Bool) : Sess → List (Nat × HOp) → Sess × List HRes
+  | s, [] => (s, [])
+  | s, x :: xs =>
+    let r := step guard s x.1 x.2
+    let rest := run guard r.1 xs
+    (rest.1, r.2 :: rest.2)
+
+end Handles
+
 end XmppModel.Encoder
